@@ -118,6 +118,11 @@ package service
 //@   ensures result.4 == nil ==> len(result.2) == pure("shadowsocks.(*EncryptionKey).SaltSize", result.0.CryptoKey)
 //@   ensures result.4 != nil ==> result.0 == nil
 //@   trace[C06,fixed-read] exactly 1 io.ReadFull
+//@   trace[C06,reads-fixed-prefix] each io.ReadFull satisfies len($arg1) == bytesForKeyFinding && $arg0 == clientReader
+//@   trace[C02,prefix-replayed-in-full] each bytes.NewReader satisfies len($arg0) == bytesForKeyFinding && sameslice($arg0, evarg("io.ReadFull", 1))
+//@   trace[C02,prefix-replayed-once] exactly 1 bytes.NewReader when result.4 == nil
+//@   trace[C02,stream-reassembled-once] exactly 1 io.MultiReader when result.4 == nil
+//@   trace[C01,mark-used-only-on-success] never service.(*cipherList).MarkUsedByClientIP when result.4 != nil
 
 // The authenticator installed in a stream handler (a function value): its contract
 // is what NewShadowsocksStreamAuthenticator$1 is verified against.
@@ -132,6 +137,15 @@ package service
 //@   props C01 C06 C07 C08 C18
 //@   requires clientConn != nil && ciphers != nil && metrics != nil && l != nil
 //@   trace[C06,authenticator-is-silent] never transport.StreamConn.Write
+//@   trace[C02,decrypts-the-reassembled-stream] each shadowsocks.NewReader satisfies $arg0 == evres("service.findAccessKey", 1) && $arg1 == evres("service.findAccessKey", 0).CryptoKey
+//@   trace[C02,encrypts-to-the-client-with-matched-key] each shadowsocks.NewWriter satisfies $arg0 == clientConn && $arg1 == evres("service.findAccessKey", 0).CryptoKey
+//@   trace[C08,response-salts-from-matched-key] each shadowsocks.(*Writer).SetSaltGenerator satisfies $arg1 == evres("service.findAccessKey", 0).SaltGenerator
+//@   trace[C08,salt-generator-installed] exactly 1 shadowsocks.(*Writer).SetSaltGenerator when result.2 == nil
+//@   trace[C08,server-salt-checked-on-matched-key] each service.ServerSaltGenerator.IsServerSalt satisfies $recv == evres("service.findAccessKey", 0).SaltGenerator && sameslice($arg0, evres("service.findAccessKey", 2))
+//@   trace[C08,server-salt-checked] exactly 1 service.ServerSaltGenerator.IsServerSalt when evres("service.findAccessKey", 4) == nil
+//@   trace[C08,reflected-salt-refused] each service.ServerSaltGenerator.IsServerSalt satisfies $res0 == true ==> result.2 != nil && result.2.Status == "ERR_REPLAY_SERVER" && result.1 == nil && evcount("service.(*ReplayCache).Add") == 0
+//@   trace[C07,replay-status] each service.(*ReplayCache).Add satisfies $res0 == false ==> result.2.Status == "ERR_REPLAY_CLIENT"
+//@   trace[C01,attributed-to-matched-entry] each service.findAccessKey satisfies $res4 == nil && result.2 == nil ==> result.0 == $res0.ID
 //@   trace[C06,authenticator-does-not-close] never transport.StreamConn.Close*
 //@   trace[C06,authenticator-keeps-deadline] never transport.StreamConn.Set*Deadline
 //@   trace[C06,one-key-search] exactly 1 service.findAccessKey
@@ -300,10 +314,54 @@ package service
 //@   atomic
 //@   requires cl != nil
 
+// MakeCipherEntry: keys whose salt leaves at least 16 random bytes after the 4-byte mark (salt
+// size >= 20) get the marking generator keyed from this very secret; others the plain random one.
 //@ func MakeCipherEntry
 //@   props C08 C18
 //@   requires cryptoKey != nil
 //@   ensures result.CryptoKey == cryptoKey && result.ID == id && result.SaltGenerator != nil
+//@   ensures[C08,marking-generator-for-long-salts] pure("shadowsocks.(*EncryptionKey).SaltSize", cryptoKey) >= 20 ==> typeis(result.SaltGenerator, "service.serverSaltGenerator")
+//@   ensures[C08,plain-generator-for-short-salts] pure("shadowsocks.(*EncryptionKey).SaltSize", cryptoKey) < 20 ==> typeis(result.SaltGenerator, "service.randomServerSaltGenerator")
+//@   trace[C08,keyed-from-this-secret] each service.NewServerSaltGenerator satisfies $arg0 == secret
+
+// ---------------------------------------------------------------------------
+// Server salts (C08): the last 4 bytes of a marked salt are the first 4 bytes of
+// HMAC-SHA1(key, prefix). HMAC is an assumed deterministic function of (key, prefix).
+// ---------------------------------------------------------------------------
+
+//@ func (serverSaltGenerator).splitSalt
+//@   props C08 C18
+//@   ensures[C08,split-exact] result.2 == nil ==> len(salt) >= 4 && sameslice(result.0, salt[:len(salt)-4]) && sameslice(result.1, salt[len(salt)-4:])
+//@   ensures[C08,short-salt-rejected] len(salt) < 4 ==> result.2 != nil
+//@   ensures result.2 != nil ==> len(salt) < 4
+
+//@ func (serverSaltGenerator).getTag
+//@   props C08 C18
+//@   ensures len(result) == 20
+
+//@ func (serverSaltGenerator).GetSalt
+//@   props C08 C18
+//@   trace[C08,random-prefix-only] each rand.Read satisfies sameslice($arg0, salt[:len(salt)-4])
+//@   trace[C08,tag-of-final-prefix] before rand.Read service.(serverSaltGenerator).getTag
+//@   trace[C08,tag-over-prefix] each service.(serverSaltGenerator).getTag satisfies sameslice($arg1, salt[:len(salt)-4])
+//@   trace[C08,mark-written-from-tag] each copy satisfies sameslice($arg0, salt[len(salt)-4:]) && $arg1.$arr == evres("service.(serverSaltGenerator).getTag", 0).$arr && $arg1.$off == evres("service.(serverSaltGenerator).getTag", 0).$off
+//@   trace[C08,mark-written-once] exactly 1 copy when result == nil
+//@   ensures[C08,short-salt-rejected] len(salt) < 4 ==> result != nil
+
+//@ func (serverSaltGenerator).IsServerSalt
+//@   props C08 C18
+//@   ensures[C08,short-salt-not-server] len(salt) < 4 ==> result == false
+//@   trace[C08,tag-over-prefix] each service.(serverSaltGenerator).getTag satisfies sameslice($arg1, salt[:len(salt)-4])
+//@   trace[C08,compares-four-tag-bytes-with-mark] each bytes.Equal satisfies len($arg0) == 4 && $arg0.$arr == evres("service.(serverSaltGenerator).getTag", 0).$arr \
+//@       && $arg0.$off == evres("service.(serverSaltGenerator).getTag", 0).$off && sameslice($arg1, salt[len(salt)-4:]) && result == $res0
+//@   trace[C08,decided-by-tag] exactly 1 bytes.Equal when len(salt) >= 4
+
+//@ func (randomServerSaltGenerator).IsServerSalt
+//@   props C08 C18
+//@   ensures result == false
+//@ func (randomServerSaltGenerator).GetSalt
+//@   props C08 C18
+//@   trace[C08,whole-salt-random] each rand.Read satisfies sameslice($arg0, salt)
 
 // ---------------------------------------------------------------------------
 // UDP (C03, C04, C05, C14, C16, C18, C19)
